@@ -3192,8 +3192,10 @@ class RomanNumeral(Harmony):
             root = step + INT_TO_ALT[alter]
         except KeyError:
             loc_k = self.primary_degree
-            glob_k = step.lower() if self.secondary_degree.islower() else step.upper()
-            root = step + INT_TO_ALT[alter]
+            # the applied key keeps the alteration of its tonic
+            glob_k = (
+                step.lower() if self.secondary_degree.islower() else step.upper()
+            ) + INT_TO_ALT[alter]
             root = process_local_key(loc_k, glob_k)
 
         return root
